@@ -567,7 +567,7 @@ func corrupt(cs Case, sealed []byte) (out []byte, oldSig bool, ok bool) {
 			}
 		case "header-garbled":
 			hdr = append([]byte{}, e.Header...)
-			hdr[c.Alt%len(hdr)] ^= 0x01
+			hdr[c.Alt%len(hdr)] ^= 1 << (c.Alt / len(hdr) % 8) // every bit of every header byte as Alt runs
 		default:
 			hdr = []byte{}
 		}
@@ -1244,6 +1244,9 @@ func TestEveryForgeryEveryAlgorithm(t *testing.T) {
 			alts := 6
 			if !h.Thorough() && d.Issuer().Alg == keys.RSA {
 				alts = 2
+			}
+			if kind == "header-garbled" {
+				alts = 64 // every bit of every byte of the header (8 bytes at most), under the old signature
 			}
 			for alt := 0; alt < alts; alt++ {
 				prop.One(t, Case{Tok: d, C: Corruption{Kind: kind, Alt: alt}})
